@@ -86,16 +86,17 @@ type c14BindFailure struct {
 func constText(v constant.Value) string {
 	switch v.Kind() {
 	case constant.Int:
-		return v.ExactString()
+		return "I:" + v.ExactString()
 	case constant.String:
 		return "s:" + constant.StringVal(v)
 	case constant.Bool:
 		return "b:" + strconv.FormatBool(constant.BoolVal(v))
 	case constant.Float:
+		// the kind is part of the constant: an untyped float constant defaults to float64
 		if i := constant.ToInt(v); i.Kind() == constant.Int {
-			return i.ExactString()
+			return "F:" + i.ExactString()
 		}
-		return "f:" + v.ExactString()
+		return "F:" + v.ExactString()
 	}
 	return "c:" + v.ExactString()
 }
@@ -310,7 +311,7 @@ func c14CheckBindings(prog *sym.Program, e *sym.Engine, tablePath string, restri
 					bad("const", "is not a constant value ("+d.Kind+")", want)
 					continue
 				case d.Int != nil:
-					got = d.Int.String()
+					got = "I:" + d.Int.String()
 				case d.Str != nil:
 					got = "s:" + *d.Str
 				case d.Bool != nil:
@@ -409,9 +410,9 @@ func c14ReplayBinding(p *Prop, sc *scratch, f c14BindFailure) (bool, string) {
 		default:
 			switch got.Kind() {
 			case reflect.Int, reflect.Int8, reflect.Int16, reflect.Int32, reflect.Int64:
-				text = strconv.FormatInt(got.Int(), 10)
+				text = "I:" + strconv.FormatInt(got.Int(), 10)
 			case reflect.Uint, reflect.Uint8, reflect.Uint16, reflect.Uint32, reflect.Uint64, reflect.Uintptr:
-				text = strconv.FormatUint(got.Uint(), 10)
+				text = "I:" + strconv.FormatUint(got.Uint(), 10)
 			case reflect.String:
 				text = "s:" + got.String()
 			case reflect.Bool:
@@ -432,16 +433,16 @@ func c14ReplayBinding(p *Prop, sc *scratch, f c14BindFailure) (bool, string) {
 func vhConstText(v constant.Value) string {
 	switch v.Kind() {
 	case constant.Int:
-		return v.ExactString()
+		return "I:" + v.ExactString()
 	case constant.String:
 		return "s:" + constant.StringVal(v)
 	case constant.Bool:
 		return "b:" + strconv.FormatBool(constant.BoolVal(v))
 	case constant.Float:
 		if i := constant.ToInt(v); i.Kind() == constant.Int {
-			return i.ExactString()
+			return "F:" + i.ExactString()
 		}
-		return "f:" + v.ExactString()
+		return "F:" + v.ExactString()
 	}
 	return "c:" + v.ExactString()
 }
